@@ -197,6 +197,17 @@ Proof. vm_compute. reflexivity. Qed.
 Example c01_empty_key_refuted :
   fst (h_set 0 empty_db [FBulk (bs "SET"); FBulk []; FBulk (bs "v")]) = r_err.
 Proof. vm_compute. reflexivity. Qed.
+(** lenient-integer-arguments: every integer argument other than the value and the increment of the
+    INCR family is still read with Rust's [str::parse] (a leading '+', leading zeros), which
+    Redis refuses: EXPIRE k +5, GETRANGE k +0 01, SETEX k2 +5 v are accepted *)
+Example c01_lenient_integer_arguments_refuted :
+  fst (run_strings empty_db
+        [(0, [FBulk (bs "SET"); FBulk (bs "k"); FBulk (bs "v")]);
+         (0, [FBulk (bs "EXPIRE"); FBulk (bs "k"); FBulk (bs "+5")]);
+         (0, [FBulk (bs "GETRANGE"); FBulk (bs "k"); FBulk (bs "+0"); FBulk (bs "01")]);
+         (0, [FBulk (bs "SETEX"); FBulk (bs "k2"); FBulk (bs "+5"); FBulk (bs "v")])])
+  = [r_ok; r_int 1; r_bulk (bs "v"); r_ok].
+Proof. vm_compute. reflexivity. Qed.
 (** MSET is failure-atomic too since 974d7d6 (every pair is validated before the first is stored) *)
 Theorem c01_mset_refused_changes_nothing :
   forall now d parts r d', h_mset now d parts = (r, d') -> is_error r = true -> d' = d.
